@@ -33,6 +33,7 @@ def main(argv):
     checks = [prop]
     tier = 'quick'
     skip_tests = False
+    seed = None
     i = 2
     while i < len(argv):
         if argv[i] == '--checks':
@@ -44,11 +45,14 @@ def main(argv):
         elif argv[i] == '--skip-tests':
             skip_tests = True
             i += 1
+        elif argv[i] == '--seed':
+            seed = argv[i + 1]
+            i += 2
         else:
             i += 1
     tag = re.sub(r'[^A-Za-z0-9]', '_', d)[-40:]
     wt = '/tmp/sv_%s_%d' % (tag, os.getpid())
-    res = dict(dir=d, property=prop, tier=tier)
+    res = dict(dir=d, property=prop, tier=tier, seed=seed)
     rc, out = sh(['git', '-C', '/repo', 'worktree', 'add', '-q', '--detach', wt, 'HEAD'])
     if rc:
         print('worktree failed', out)
@@ -77,7 +81,7 @@ def main(argv):
         for c in checks:
             e2 = dict(os.environ, VERIF_REPO=wt)
             t0 = time.time()
-            rc, out = sh([os.path.join(VERIF, 'check'), c, '--tier', tier], cwd=VERIF, env=e2, timeout=3600)
+            rc, out = sh([os.path.join(VERIF, 'check'), c, '--tier', tier] + (['--seed', seed] if seed else []), cwd=VERIF, env=e2, timeout=3600)
             viol = [ln for ln in out.splitlines() if ln.startswith('VIOLATION')]
             caught[c] = dict(rc=rc, violations=len(viol), first=(viol[0][:260] if viol else ''),
                              last=out.strip().splitlines()[-1][:200] if out.strip() else '', wall=round(time.time() - t0, 1))
